@@ -155,14 +155,38 @@ def scalar_fn(body):
         if r < 0 or r >> bits:
             raise TableShape("arithmetic leaves the %d-bit range while evaluating (the function would panic or wrap)" % bits)
         return r
+    def flag_of(t):
+        """(local, negated) when t is a (possibly negated) read of a bool variable with several definitions"""
+        t = sym.strip(t)
+        neg = False
+        while t[0] == "un" and t[1] == "Not":
+            neg = not neg
+            t = sym.strip(t[2])
+        if t[0] == "local" and body.local_ty(t[1]) == "bool" and len(body.defs().get(t[1], [])) > 1:
+            return t[1], neg
+        return None
     breakpoints = set()
     nodes = {}
+    flag_sets = {}      # block -> [(bool local, constant)]: `known = true` in one arm of a matches!() / short-circuit expression
     for bi in body.rpo():
         t = body.term(bi)
         res = None
         for s in body.stmts(bi):
+            if s["k"] == "assign" and not s["p"]["p"] and s["p"]["l"] != 0 and body.local_ty(s["p"]["l"]) == "bool" \
+                    and len(body.defs().get(s["p"]["l"], [])) > 1:
+                rv = s["rv"]
+                if rv["k"] == "use" and rv["op"]["k"] == "const" and rv["op"].get("val") in (0, 1, True, False):
+                    flag_sets.setdefault(bi, []).append((s["p"]["l"], bool(rv["op"]["val"])))
+                elif rv["k"] == "use" and rv["op"]["k"] in ("copy", "move") and not rv["op"]["p"]["p"] and body.local_ty(rv["op"]["p"]["l"]) == "bool":
+                    flag_sets.setdefault(bi, []).append((s["p"]["l"], ("flag", rv["op"]["p"]["l"])))
+                else:
+                    raise TableShape("flag in bb%d is assigned something other than a constant or another flag" % bi)
             if s["k"] == "assign" and s["p"]["l"] == 0 and not s["p"]["p"]:
                 rv = s["rv"]
+                if rv["k"] == "use" and rv["op"]["k"] in ("copy", "move") and not rv["op"]["p"]["p"] and body.local_ty(rv["op"]["p"]["l"]) == "bool" \
+                        and len(body.defs().get(rv["op"]["p"]["l"], [])) > 1:
+                    res = ("flag", rv["op"]["p"]["l"])
+                    continue
                 if rv["k"] == "agg" and rv.get("vname") == "None":
                     res = ("none",)
                 elif rv["k"] == "agg" and rv.get("vname") == "Some":
@@ -188,6 +212,15 @@ def scalar_fn(body):
                 for v, _ in t["arms"]:
                     breakpoints.add(v)
                 nodes[bi] = ("switch-expr", dt, {v: tg for v, tg in t["arms"]}, t["otherwise"], res)
+            elif t.get("dty") == "bool" and flag_of(dt) is not None:
+                fl, neg = flag_of(dt)
+                false_t = [tg for v, tg in t["arms"] if v == 0]
+                if len(t["arms"]) != 1 or not false_t:
+                    raise TableShape("bool switch with unexpected arms in bb%d" % bi)
+                tt, ff = t["otherwise"], false_t[0]
+                if neg:
+                    tt, ff = ff, tt
+                nodes[bi] = ("flag", fl, tt, ff, res)
             else:
                 d = sym.strip(dt)
                 if d[0] == "bin" and d[1] in ("Lt", "Le", "Gt", "Ge", "Eq", "Ne"):
@@ -232,20 +265,36 @@ def scalar_fn(body):
         bb = 0
         result = None
         steps = 0
+        flags = {}
         while True:
             steps += 1
             if steps > 10000:
                 raise TableShape("loop")
+            for fl, val in flag_sets.get(bb, ()):
+                if isinstance(val, tuple):
+                    if val[1] not in flags:
+                        raise TableShape("flag read before it is set")
+                    val = flags[val[1]]
+                flags[fl] = val
             n = nodes[bb]
             r = n[-1]
             if r is not None:
-                result = ("some", v) if r[0] == "some-id" else r
+                if r[0] == "flag":
+                    if r[1] not in flags:
+                        raise TableShape("flag read before it is set")
+                    result = ("some", flags[r[1]])
+                else:
+                    result = ("some", v) if r[0] == "some-id" else r
             if n[0] == "return":
                 if result is None:
                     raise TableShape("return without result")
                 return result
             if n[0] == "goto":
                 bb = n[1]
+            elif n[0] == "flag":
+                if n[1] not in flags:
+                    raise TableShape("flag read before it is set")
+                bb = n[2] if flags[n[1]] else n[3]
             elif n[0] == "switch-input":
                 bb = n[1].get(v, n[2])
             elif n[0] == "switch-expr":
